@@ -511,6 +511,12 @@ class Analysis:
         return T.mk('sym', 'expr', k or '?')
 
     def note_index(self, e, base, idx, st, nid):
+        # nested subscripts a[i][j]: the outer levels are index events as well
+        b = base
+        while isinstance(b, dict) and b.get('k') in ('cast',):
+            b = b.get('e')
+        if isinstance(b, dict) and (b.get('k') == 'idx' or (b.get('k') == 'opcall' and b.get('op') == '[]' and len(b['a']) == 2)):
+            self.note_index(b, b['a'][0], b['a'][1], st, nid)
         it = self.ev(idx, st, nid) if isinstance(idx, dict) else None
         bt = None
         bl = self.loc(base, st)
